@@ -135,6 +135,20 @@ Section Points.
     destruct (N.odd y); destruct validate; reflexivity.
   Qed.
 
+  (* a hybrid string whose tag contradicts the parity of y is rejected when validation is on *)
+  Lemma point_from_bytes_hyb_inconsistent ve : e_hyb (encs_norm ve) = true ->
+    point_from_bytes sqrt_mod c ((if N.odd y then x06 else x07) :: be ln x ++ be ln y) true ve
+      = Err EMalformedPoint.
+  Proof.
+    intro Hve. unfold point_from_bytes. rewrite Hc. fold l. rewrite blen_cons, raw_blen.
+    destruct (1 + 2 * l =? 2 * l) eqn:E; [apply N.eqb_eq in E; lia|]. cbn [andb].
+    rewrite (N.add_comm 1), N.eqb_refl, Hve. cbn [orb andb].
+    assert (T : (byte_eqb (if N.odd y then x06 else x07) x06 || byte_eqb (if N.odd y then x06 else x07) x07) = true)
+      by (destruct (N.odd y); reflexivity).
+    rewrite T. cbn [andb]. unfold from_hybrid. rewrite from_raw_encoding_ok. cbn [bind].
+    destruct (N.odd y); reflexivity.
+  Qed.
+
   (* compressed (partial): the square root is an oracle; it must return one of the two roots *)
   Lemma point_from_bytes_comp validate ve beta :
     e_comp (encs_norm ve) = true -> 2 <= l -> N.odd p = true -> p <> 0 ->
